@@ -49,6 +49,11 @@ func (s logonState) FixMsgIn(session *session, msg *Message) (nextState sessionS
 			// The too-high Logon itself is not consumed: its own number is still
 			// missing, so the range to recover extends through it.
 			session.log.OnEventf("MsgSeqNum too high, expecting %v but received %v", err.ExpectedTarget, err.ReceivedTarget)
+			if session.EnableNextExpectedMsgSeqNum && msg.Body.Has(tagNextExpectedMsgSeqNum) {
+				// Our Logon told the counterparty which number we expect next (tag 789) and it resends from
+				// there on its own: a ResendRequest would be answered with a second, overlapping replay.
+				return resendState{resendRangeEnd: err.ReceivedTarget, messageStash: make(map[int]*Message)}
+			}
 			if nextState, tooHighErr = session.sendResendRequest(err.ExpectedTarget, err.ReceivedTarget); tooHighErr != nil {
 				return shutdownWithReason(session, msg, false, tooHighErr.Error())
 			}
